@@ -108,4 +108,6 @@ SumExprs(es, i) == IF i > Len(es) THEN CI(0) ELSE Plus(es[i], SumExprs(es, i + 1
 \* total derivative of e along x' = rhs : de/dt + sum_i de/dx_i * rhs_i
 Der(e, rhs) == Plus(DLeaf(e, "t", 0),
                     SumExprs(Tup([i \in 1..Len(rhs) |-> Times(DLeaf(e, "x", i), rhs[i])]), 1))
+\* ... with quadrature states q' = quads next to the states
+DerQ(e, rhs, quads) == Plus(Der(e, rhs), SumExprs(Tup([i \in 1..Len(quads) |-> Times(DLeaf(e, "q", i), quads[i])]), 1))
 =============================================================================
